@@ -323,6 +323,9 @@ static void enumerate_unit(const nmc::Tier& t, const nmc::Sink& emit) {
         for (long a = -d; a < d; a++) for (long dt = 0; dt <= 2; dt++) { emit(Case("softmax", {s, {a}, {dt}})); emit(Case("softmin", {s, {a}, {dt}})); }
         // the axis as a COMPILE-TIME constant (0 and -1; double data)
         for (long a : {0L, -1L}) { emit(Case("softmax", {s, {a}, {0, 1}})); emit(Case("softmin", {s, {a}, {0, 1}})); }
+        // float data whose slices along the softmax axis sit on very different scales (+200 per step along a neighbouring axis): the normalisation must be per slice
+        // (seeded change m17e subtracted one GLOBAL maximum: mathematically the same, but a slice far below it underflows to 0/0)
+        if (d >= 2) for (long a = -d; a < d; a++) { emit(Case("softmax", {s, {a}, {1, 2}})); emit(Case("softmin", {s, {a}, {1, 2}})); }
     });
 }
 template <typename T> static Outcome run_softmax(bool neg, const RArr& x, int axis, const ROpt& want, bool nt, double rtol) {
@@ -335,10 +338,14 @@ static Outcome execute_unit(const Case& c) {
     // double/float: distinct multiples of 1/16 in (0, 19.2]; long: small integers 0..8 (exp of larger integer gaps underflows the tolerance)
     RArr x = scrambled(s, 1.0 / 16);
     if (dt == 2) for (auto& v : x.data) v = (double)((long)(v * 16) % 9);
+    if (c.a[2].size() > 1 && c.a[2][1] == 2) {   // scaled slices: +200 per step along the axis after the softmax axis (cyclically)
+        long ax0 = axis < 0 ? axis + (long)s.size() : axis, nb = (ax0 + 1) % (long)s.size(); long q = 0;
+        nmc::each_index(s, [&](const L& i) { x.data[(size_t)q] = (double)(float)(x.data[(size_t)q] + 200.0 * (double)i[(size_t)nb]); q++; });
+    }
     ROpt want = neg ? ref::softmin(x, axis) : ref::softmax(x, axis);
     if (!want) return Outcome::bad("wrong", "harness: case outside the domain was enumerated");
     long ax = axis < 0 ? axis + (long)s.size() : axis; bool nt = s[(size_t)ax] >= 2;
-    if (c.a[2].size() > 1) {
+    if (c.a[2].size() > 1 && c.a[2][1] == 1) {
         using namespace nmtools::literals;
         auto X = make_arr<double>(x);
         auto go = [&](auto ct_axis) -> Outcome { if (neg) return both(view::softmin(X, ct_axis), na::softmin(X, ct_axis), want, nt, 1e-9); return both(view::softmax(X, ct_axis), na::softmax(X, ct_axis), want, nt, 1e-9); };
